@@ -65,6 +65,7 @@ bool ops_shm(World &w, const Op &o) {
   { std::string e = wf_check(a, dd); if (!e.empty()) viol(w, own, e.substr(0, e.find(": ")), "adopted topology: %s", e.c_str()); }
   // observably identical: canonical dump (support and thissystem are the adopter's own), XML export
   { Dump x = ds, y = dd; x.support = y.support = ""; x.thissystem = y.thissystem = 0; for (auto &kv : x.objs) kv.second.userdata = 0; for (auto &kv : y.objs) kv.second.userdata = 0;
+    if (x.text() != y.text()) own_section_first(w, x, y, "shm");
     if (x.text() != y.text()) { std::string la, lb, ta = x.text(), tb = y.text(); size_t pa = 0, pb = 0; while (pa < ta.size() || pb < tb.size()) { size_t ea = ta.find('\n', pa), eb = tb.find('\n', pb); if (ea == std::string::npos) ea = ta.size(); if (eb == std::string::npos) eb = tb.size(); la = ta.substr(pa, ea - pa); lb = tb.substr(pb, eb - pb); if (la != lb) break; pa = ea + 1; pb = eb + 1; } viol0(w, own, "shm.dump_differs", "the adopted topology differs from the original: '%s' vs '%s'", la.substr(0, 600).c_str(), lb.substr(0, 600).c_str()); }
     std::string xa = xml_of(S.t), xb = xml_of(a); if (xa != xb) viol0(w, own, "shm.xml_differs", "XML export of the adopted topology differs from the original's (%zu vs %zu bytes)", xa.size(), xb.size()); }
   D.userdata = S.userdata;   // object userdata pointers are copied verbatim, like dup
